@@ -136,7 +136,78 @@ async fn search_rows(ds: &Dataset, col: &str, name: &str, q: Arc<dyn lance_index
     }
 }
 
+async fn scan_ids(ds: &Dataset, filter: &str, use_index: bool) -> Result<Vec<i32>, String> {
+    use futures::TryStreamExt;
+    let ds = ds.clone();
+    let f = filter.to_string();
+    let h = tokio::spawn(async move {
+        let mut sc = ds.scan();
+        sc.filter(&f).map_err(|e| e.to_string())?;
+        sc.use_scalar_index(use_index);
+        sc.project(&["id"]).map_err(|e| e.to_string())?;
+        let batches: Vec<RecordBatch> = sc.try_into_stream().await.map_err(|e| e.to_string())?.try_collect().await.map_err(|e| e.to_string())?;
+        let mut out = vec![];
+        for b in batches {
+            out.extend(b.column_by_name("id").unwrap().as_any().downcast_ref::<Int32Array>().unwrap().values().iter().copied());
+        }
+        out.sort();
+        Ok::<_, String>(out)
+    });
+    match h.await {
+        Ok(r) => r,
+        Err(e) => Err(format!("PANIC {}", panic_text(e))),
+    }
+}
+
+/// fixed corpus (runs first): the F20 probe table - 300 strings + NGram index - with the F20a input
+/// contains(s,'ap') (repaired by 72db555: must stay equal), '' and the F20b inputs; and a zone map whose only
+/// zone starts at the inclusive bound of a fused range
+async fn corpus(sink: &mut Sink) -> Result<(), String> {
+    let words = ["", "apple", "apple pie", "banana", "Ünïcode", "pineapple", "app", "ppl"];
+    let mut r = Rng::new(3);
+    let n = 300;
+    let id: Int32Array = (0..n).map(Some).collect();
+    let s: StringArray = (0..n).map(|_| if r.below(5) == 0 { None } else { Some(words[r.below(words.len() as u64) as usize]) }).collect();
+    let y: Int32Array = (0..n).map(|i| if i % 4 == 3 { None } else if i % 2 == 0 { Some(5) } else { Some(7) }).collect();
+    let schema = Arc::new(Schema::new(vec![Field::new("id", DataType::Int32, false), Field::new("s", DataType::Utf8, true), Field::new("y", DataType::Int32, true)]));
+    let batch = RecordBatch::try_new(schema.clone(), vec![Arc::new(id), Arc::new(s), Arc::new(y)]).unwrap();
+    let dir = tempfile::tempdir().map_err(|e| e.to_string())?;
+    let uri = dir.path().join("t").to_string_lossy().to_string();
+    let mut ds = Dataset::write(RecordBatchIterator::new(vec![Ok(batch)], schema.clone()), &uri, None).await.map_err(|e| e.to_string())?;
+    ds.create_index(&["s"], IndexType::NGram, Some("s_ng".into()), &ScalarIndexParams::default(), true).await.map_err(|e| e.to_string())?;
+    ds.create_index(&["y"], IndexType::ZoneMap, Some("y_zm".into()), &ScalarIndexParams::default(), true).await.map_err(|e| e.to_string())?;
+    ds.delete("id % 11 = 0").await.map_err(|e| e.to_string())?;
+    for (p, class) in [
+        ("contains(s, 'ap')", None),
+        ("contains(s, '')", None),
+        ("contains(s, 'app')", None),
+        ("contains(s, 'apple pie')", None),
+        ("contains(s, 'zzz')", None),
+        ("contains(s, 'nï')", Some("ngram_no_trigram_query")),
+        ("contains(s, 'le p')", Some("ngram_no_trigram_query")),
+        ("y >= 1 AND y < 7", None),
+        ("y > 1 AND y <= 5", None),
+        ("y <= 5 AND y > 1", Some("range_bounds_swapped")),
+        ("y < 7 AND y >= 5", Some("range_bounds_swapped")),
+    ] {
+        let a = scan_ids(&ds, p, true).await;
+        let b = scan_ids(&ds, p, false).await;
+        let case = json!({"arm": "corpus", "filter": p, "with_index": a.as_ref().map(|v| v.len()).map_err(|e| e.clone()), "without_index": b.as_ref().map(|v| v.len()).map_err(|e| e.clone())});
+        if a == b {
+            sink.oracle_ok();
+            sink.count(if class.is_some() { "corpus:equal-though-in-class" } else { "corpus:equal" });
+        } else {
+            sink.count(&format!("corpus:DIFF-{}", class.unwrap_or("unlisted")));
+            sink.oracle_fail(class, "scan with use_scalar_index(true) returns other rows than with (false)", case);
+        }
+    }
+    Ok(())
+}
+
 pub async fn run(args: &Args, sink: &mut Sink, rng: &mut Rng) -> Stream {
+    if let Err(e) = corpus(sink).await {
+        sink.oracle_fail(None, "corpus table could not be built", json!({"error": e}));
+    }
     let mut st = Stream::new("zone", REQ, "chk_zone", "N * list (N * list (option (bool * Z))) * (N * (list (option (bool * Z)) * (N * (bool * Z)) * (N * (bool * Z))))", "list N");
     st.shard = 80;
     let ntables = args.vol(6, 80);
